@@ -95,7 +95,7 @@ def expect_parsed_items(items):
 
 def check_parse(payload, mode, header_names, items, site):
     """Parse payload as CFG-VALSET (SET) or CFG-VALGET (GET) and compare attributes."""
-    cid = b"\x06\x8a" if mode == 1 else b"\x06\x8b"
+    cid = b"\x06\x8a" if mode in (1, 3) else b"\x06\x8b"
     frame = ref.frame(cid[0], cid[1], payload)
     try:
         m = UBXReader.parse(frame, msgmode=mode)
@@ -141,6 +141,7 @@ def judge_set(cfgdata, layers, txn, site, parse=True):
         out.append((f"config_set_identity|{site}", f"{m.identity} {m.msgmode}"))
     if parse:
         out += check_parse(payload, 1, SET_HDR, items, site)
+        out += [(k + "|SETPOLL", d) for k, d in check_parse(payload, 3, SET_HDR, items, site)]
         # the same item list as a CFG-VALGET response (4-byte header version/layer/position)
         out += check_parse(bytes([1, layers & 7, 0, 0]) + payload[4:], 0, GET_HDR, items, site + "|as_valget")
     return "built", out
@@ -383,6 +384,35 @@ def eval_block(block, acc):
                 acc.evaluations += 1
                 for k2, detail in out:
                     acc.violation(k2, {"kind": "keys", "fn": fn, "keys": [list(k) for k in keys], "a": 2 if fn == "del" else 0, "b": 0 if fn == "del" else 5, "site": "list"}, detail)
+        # lists whose payload is exactly 255..257 / 511..513 / 767..769 bytes (length-field byte boundaries)
+        by_w = {}
+        for name, (kid, t) in DB:
+            by_w.setdefault(L.tsize(t), []).append((name, (kid, t)))
+        for target in (255, 256, 257, 511, 512, 513, 767, 768, 769):
+            found = None
+            for n8 in range(0, 65):
+                for n2 in range(0, 65 - n8):
+                    for n1 in range(0, 65 - n8 - n2):
+                        rest = target - 4 - 12 * n8 - 6 * n2 - 5 * n1
+                        if rest >= 0 and rest % 8 == 0 and n8 + n2 + n1 + rest // 8 <= 64:
+                            found = (n8, n2, n1, rest // 8)
+                            break
+                    if found:
+                        break
+                if found:
+                    break
+            if not found:
+                continue
+            n8, n2, n1, n4 = found
+            ks = by_w[8][:n8] + by_w[2][:n2] + by_w[1][:n1] + by_w[4][:n4]
+            if len({k[1][0] for k in ks}) != len(ks):
+                continue
+            cfg = [(name if i % 2 else kid, kid, t, (boundary_values(t, False) or [L.nominal(t)])[-1]) for i, (name, (kid, t)) in enumerate(ks)]
+            st, out = judge_set(cfg, 1, 0, f"list_payload_len={target}")
+            acc.evaluations += 1
+            acc.outcomes[("list-len", target, st)] += 1
+            for k2, detail in out:
+                acc.violation(k2, {"kind": "set", "cfgdata": [[a, b, c, _j(d)] for a, b, c, d in cfg], "layers": 1, "txn": 0, "site": f"list_payload_len={target}"}, detail)
         for n in (65, 66, 100):
             for fn in ("set", "del", "poll"):
                 st, out = too_long(fn, n)
